@@ -46,6 +46,28 @@ func actAkaMac(e *Env, a J) J {
 			return J{"err": true, "builderr": err.Error()}
 		}
 	}
+	// operations performed on the packet object before the code is computed: the code must not depend on them
+	for _, x := range gl(a, "ops") {
+		switch x {
+		case "marshal":
+			_, _ = p.Marshal()
+		case "calc":
+			_, _ = p.CalcEapAkaPrimeAtMAC(gox(a, "key"))
+		case "setmac_result":
+			if m, err := p.CalcEapAkaPrimeAtMAC(gox(a, "key")); err == nil {
+				_ = p.EapTypeData.(*eap.EapAkaPrime).SetAttr(eap.AT_MAC, m)
+			}
+		case "setmac_garbage":
+			_ = p.EapTypeData.(*eap.EapAkaPrime).SetAttr(eap.AT_MAC, fillPattern("seeded", 16, 77))
+		case "reencode":
+			if b, err := p.Marshal(); err == nil {
+				q := new(eap.EAP)
+				if q.Unmarshal(b) == nil {
+					p = q
+				}
+			}
+		}
+	}
 	mac, err := p.CalcEapAkaPrimeAtMAC(gox(a, "key"))
 	o := errObs(err)
 	if err == nil {
